@@ -19,6 +19,7 @@ import (
 	"google.golang.org/protobuf/types/known/timestamppb"
 
 	"github.com/prometheus/alertmanager/alert"
+	"github.com/prometheus/alertmanager/dispatch"
 	"github.com/prometheus/alertmanager/silence/silencepb"
 
 	"verifharness/sim"
@@ -259,6 +260,25 @@ type Result struct {
 	Hash   map[uint64]int   // hashAlert -> id
 	Wait   int64
 	member map[int][]string
+	Dumps  []GroupsDump // GET /alerts/groups content (Dispatcher.Groups) after every operation
+}
+
+// GroupsDump is what Dispatcher.Groups returned at one instant, plus the provider's unresolved alerts then.
+type GroupsDump struct {
+	T       int64
+	Groups  []GroupView
+	Current []model.LabelSet // alerts the provider holds whose end time has not passed
+}
+
+type GroupView struct {
+	RouteID  string
+	RouteKey string
+	GroupKey string
+	Receiver string
+	Labels   model.LabelSet
+	GroupBy  []string
+	All      bool
+	Alerts   []model.LabelSet
 }
 
 type GroupInfo struct {
@@ -338,6 +358,7 @@ func Run(t *testing.T, sc *Scenario) *Result {
 				res.GCs = append(res.GCs, now.UnixNano())
 			}
 			synctest.Wait()
+			res.Dumps = append(res.Dumps, dumpGroups(s))
 		}
 		time.Sleep(time.Duration(sc.Tail))
 		synctest.Wait()
@@ -367,6 +388,39 @@ func Run(t *testing.T, sc *Scenario) *Result {
 		s.Stop()
 	})
 	return res
+}
+
+func dumpGroups(s *sim.Sim) GroupsDump {
+	d := GroupsDump{T: time.Now().UnixNano()}
+	routes := map[string]*dispatch.Route{}
+	s.Route.Walk(func(r *dispatch.Route) { routes[r.ID()] = r })
+	groups, _, err := s.Disp.Groups(context.Background(), func(*dispatch.Route) bool { return true }, func(a *alert.Alert, now time.Time) bool { return !a.ResolvedAt(now) })
+	if err != nil {
+		return d
+	}
+	for _, g := range groups {
+		v := GroupView{RouteID: g.RouteID, GroupKey: g.GroupKey, Receiver: g.Receiver, Labels: g.Labels.Clone()}
+		if r := routes[g.RouteID]; r != nil {
+			v.RouteKey = r.Key()
+			v.All = r.RouteOpts.GroupByAll
+			for n := range r.RouteOpts.GroupBy {
+				v.GroupBy = append(v.GroupBy, string(n))
+			}
+			sort.Strings(v.GroupBy)
+		}
+		for _, a := range g.Alerts {
+			v.Alerts = append(v.Alerts, a.Labels.Clone())
+		}
+		d.Groups = append(d.Groups, v)
+	}
+	it := s.Alerts.GetPending()
+	for a := range it.Next() {
+		if !a.Data.Resolved() {
+			d.Current = append(d.Current, a.Data.Labels.Clone())
+		}
+	}
+	it.Close()
+	return d
 }
 
 func tsOf(t time.Time) *timestamppb.Timestamp { return timestamppb.New(t) }
@@ -944,4 +998,87 @@ func b2i(b bool) int64 {
 		return 1
 	}
 	return 0
+}
+
+// MonitorC06 checks the partition clauses of C06 directly on Dispatcher.Groups output and on the flushes.
+func MonitorC06(res *Result) []vh.Violation {
+	var out []vh.Violation
+	add := func(key, what string) { out = append(out, vh.Violation{Key: key, What: what, Case: res.Sc}) }
+	for _, d := range res.Dumps {
+		seen := map[string]bool{}
+		inGroups := map[string]map[string]bool{} // alert label set -> set of group keys (by route id)
+		for _, g := range d.Groups {
+			id := g.RouteID + "|" + g.Labels.String()
+			if seen[id] {
+				add("group-split", "two live groups with the same route and group labels: "+id)
+			}
+			seen[id] = true
+			if g.GroupKey != g.RouteKey+":"+g.Labels.String() {
+				add("group-key-not-pure", fmt.Sprintf("group key %q is not routeKey %q + ':' + labels %s", g.GroupKey, g.RouteKey, g.Labels))
+			}
+			for _, a := range g.Alerts {
+				want := model.LabelSet{}
+				for n, v := range a {
+					if g.All || containsStr(g.GroupBy, string(n)) {
+						want[n] = v
+					}
+				}
+				if !want.Equal(g.Labels) {
+					add("alert-in-wrong-group", fmt.Sprintf("alert %s in group %s of route %s (group_by %v all=%v)", a, g.Labels, g.RouteID, g.GroupBy, g.All))
+				}
+				k := a.String()
+				if inGroups[k] == nil {
+					inGroups[k] = map[string]bool{}
+				}
+				inGroups[k][g.GroupKey+"|"+g.RouteID] = true
+			}
+		}
+		// every current alert is shown in exactly the groups routing + group_by assign it to
+		for _, a := range d.Current {
+			want := map[string]bool{}
+			for _, gk := range res.member[res.idOf(a)] {
+				want[gk] = true
+			}
+			got := map[string]bool{}
+			for k := range inGroups[a.String()] {
+				got[strings.SplitN(k, "|", 2)[0]] = true
+			}
+			for k := range want {
+				if !got[k] {
+					add("alert-missing-from-group", fmt.Sprintf("alert %s not shown in group %s", a, k))
+				}
+			}
+			for k := range got {
+				if !want[k] {
+					add("alert-in-unexpected-group", fmt.Sprintf("alert %s shown in group %s", a, k))
+				}
+			}
+		}
+	}
+	// every notification batch carries alerts of exactly one group
+	for gk, fs := range res.Flushes() {
+		for _, f := range fs {
+			for _, a := range f.Alerts {
+				ok := false
+				for _, k := range res.member[res.idOf(a.Labels)] {
+					if k == gk {
+						ok = true
+					}
+				}
+				if !ok {
+					add("flush-mixes-groups", fmt.Sprintf("flush of %s contains alert %s", gk, a.Labels))
+				}
+			}
+		}
+	}
+	return out
+}
+
+func containsStr(xs []string, x string) bool {
+	for _, y := range xs {
+		if y == x {
+			return true
+		}
+	}
+	return false
 }
